@@ -471,6 +471,14 @@ func (g *pgen) loop(acc string) GStmt {
 		// a bound computed by a commutative integer operation (its operands can be exchanged)
 		limit = EBin{pick(g.r, []string{"&", "|", "^", "+"}), EVar{g.ints[0]}, EInt{pick(g.r, []int{3, 5, 7})}, TInt}
 	}
+	if g.r.Chance(15) {
+		// a bound that is a locally computed value (a call result): it reaches the text as a register name
+		if len(g.slcs) > 0 && g.r.Bool() {
+			limit = ELen{EVar{pick(g.r, g.slcs)}}
+		} else if len(g.strs) > 0 {
+			limit = ELen{EVar{pick(g.r, g.strs)}}
+		}
+	}
 	f := SFor{I: i, Start: EInt{g.r.Intn(3)}, Limit: limit, Cmp: pick(g.r, []string{"<", "<", "<=", "!="}), Step: step}
 	if f.Cmp == "!=" {
 		f.Step = 1
